@@ -163,3 +163,11 @@ WITNESSES += [
     dict(id="c18-delta-top-level-blank", prop="C18", file=S, expect="R18b'",
          old='            "\\\\delta_{" + " ".join(s._latex(printer) for s in self.args) + "}"', new='            "\\\\delta _{" + " ".join(s._latex(printer) for s in self.args) + "}"'),
 ]
+
+WITNESSES += [
+    # sympy's printer dispatch instead of calling _latex directly; the name read through the `name` property
+    dict(id="c18-ok-printer-dispatch", prop="C18", file=S, expect=None, edits=[
+        ('        return "{%s_{%s}}" % (self.symbol, "".join([i._latex(printer)\n                                                    for i in self.indices]))',
+         '        printed = [printer._print(i) for i in self.indices]\n        return "{%s_{%s}}" % (self.name, "".join(printed))'),
+    ]),
+]
